@@ -123,6 +123,8 @@ def main(argv=None):
     from vcgen import harness as _h
 
     for c in _h.all_contracts(mod):
+        if c.instances is None:
+            continue  # assumed-only contract (no home proof in this framework): listed in the evidence as an assumption
         for inst in c.instances(tier):
             if args.only and args.only not in c.name + "/" + inst.name:
                 continue
